@@ -6,7 +6,9 @@ package tally
 // `-tags verif`; nothing here is reachable from a normal build.
 
 import (
+	"fmt"
 	"io"
+	"sort"
 	"sync/atomic"
 	"time"
 )
@@ -14,7 +16,10 @@ import (
 var verifYieldHook atomic.Value // of func(int)
 
 // verifYield hands control to the installed schedule controller, if any.
-// Points: 1,2,3 counter.value; 11 gauge.Update; 21 gauge.report; 22 gauge.cachedReport.
+// Points: 1,2,3 counter.value; 11 gauge.Update; 21 gauge.report; 22 gauge.cachedReport;
+// 31 (with key),32,34,35 registry report pass; 33 removeWithRLock hand-over;
+// 41,44,45 registry Subscope; 51..54 metric getters (between probe and Lock);
+// 61,62 reportLoopRun; 63,64 root Close.
 func verifYield(point int) {
 	if f, _ := verifYieldHook.Load().(func(int)); f != nil {
 		f(point)
@@ -51,4 +56,61 @@ func VerifSetNow(now func() time.Time) (restore func()) {
 	prev := globalNow
 	globalNow = now
 	return func() { globalNow = prev }
+}
+
+var verifNoteHook atomic.Value // of func(int, string)
+
+// verifYieldKey tells the harness which registry entry a report pass is
+// about to visit, then yields.
+func verifYieldKey(point int, key string) {
+	if f, _ := verifNoteHook.Load().(func(int, string)); f != nil {
+		f(point, key)
+	}
+	verifYield(point)
+}
+
+// VerifSetNote installs (or, with nil, removes) the note callback.
+func VerifSetNote(f func(int, string)) { verifNoteHook.Store(f) }
+
+// VerifEntry is one registry entry as seen by VerifRegistryDump.
+type VerifEntry struct {
+	Shard  int
+	Key    string
+	Scope  string // pointer identity of the registered scope
+	Closed bool
+	Root   bool
+}
+
+// VerifRegistryDump lists the registry's entries (sorted by shard and key).
+func VerifRegistryDump(s Scope) []VerifEntry {
+	ss, ok := s.(*scope)
+	if !ok {
+		return nil
+	}
+	var out []VerifEntry
+	for i, b := range ss.registry.subscopes {
+		b.mu.RLock()
+		for k, sc := range b.s {
+			out = append(out, VerifEntry{Shard: i, Key: k, Scope: fmt.Sprintf("%p", sc), Closed: sc.closed.Load(), Root: sc.root})
+		}
+		b.mu.RUnlock()
+	}
+	sort.Slice(out, func(i, j int) bool {
+		if out[i].Shard != out[j].Shard {
+			return out[i].Shard < out[j].Shard
+		}
+		return out[i].Key < out[j].Key
+	})
+	return out
+}
+
+// VerifScopeID returns the pointer identity of a scope.
+func VerifScopeID(s Scope) string { return fmt.Sprintf("%p", s) }
+
+// VerifReportLoopAlive reports whether the root's reporting goroutine has not
+// yet returned (a root created with interval 0 never had one).
+func VerifWaitLoop(s Scope) {
+	if ss, ok := s.(*scope); ok {
+		ss.wg.Wait()
+	}
 }
